@@ -27,7 +27,11 @@ structure AuxRefines (i i' : AuxInfo) : Prop where
 
 /-- **The class of controllers.** `E`: "equal up to the fragmentation of the open text node". -/
 structure TextBlind {γ : Type} (ctl : Controller γ) (E : γ → γ → Prop) : Prop where
-  refl : ∀ g, E g g
+  /-- `E` is a partial equivalence-like relation: related states are in its domain `E g g` (the states the
+  class speaks about — e.g. those of a scripted controller whose failure injection is off) -/
+  dom : ∀ g g', E g g' → E g g ∧ E g' g'
+  /-- the domain is closed under un-delivering a token -/
+  dom_tok : ∀ g t, E (ctl.token g t).1 (ctl.token g t).1 → E g g
   trans : ∀ g1 g2 g3, E g1 g2 → E g2 g3 → E g1 g3
   /-- tokens are observed through their absolute form -/
   token_norm : ∀ g t t', normToken t = normToken t' → ctl.token g t = ctl.token g t'
@@ -43,11 +47,11 @@ structure TextBlind {γ : Type} (ctl : Controller γ) (E : γ → γ → Prop) :
     (ctl.token g t).2.chunks = (ctl.token g' t).2.chunks ∧ (ctl.token g t).2.err = (ctl.token g' t).2.err ∧
     (ctl.token g t).2.nextEncoding = (ctl.token g' t).2.nextEncoding ∧ E (ctl.token g t).1 (ctl.token g' t).1
   /-- text chunks never fail, never switch the encoding, and are serialised to their own bytes -/
-  text_ok : ∀ g b tt l s, (ctl.token g (.text b tt l s)).2.err = none ∧
+  text_ok : ∀ g b tt l s, E g g → (ctl.token g (.text b tt l s)).2.err = none ∧
     (ctl.token g (.text b tt l s)).2.nextEncoding = none ∧ (ctl.token g (.text b tt l s)).2.chunks.flatten = b
   text_cong : ∀ g g' b tt l s, E g g' → E (ctl.token g (.text b tt l s)).1 (ctl.token g' (.text b tt l s)).1
   /-- a text chunk delivered in two pieces -/
-  text_split : ∀ g b1 b2 tt l s,
+  text_split : ∀ g b1 b2 tt l s, E g g →
     E (ctl.token (ctl.token g (.text b1 tt false ⟨s, s + b1.length⟩)).1 (.text b2 tt l ⟨s + b1.length, s + b1.length + b2.length⟩)).1
       (ctl.token g (.text (b1 ++ b2) tt l ⟨s, s + b1.length + b2.length⟩)).1
   handleEnd : ∀ g g', E g g' → (ctl.handleEnd g).2 = (ctl.handleEnd g').2 ∧ E (ctl.handleEnd g).1 (ctl.handleEnd g').1
@@ -256,8 +260,8 @@ theorem flushPendingText_sim {E : γ → γ → Prop} {inpS inpW : Bytes} {δ : 
       (.text [] ds.lastTextType true ⟨ds.textPendingStart, ds.textPendingStart⟩)
     obtain ⟨b1, b2, b3, b4, b5, b6, b7, b8, b9, b10, b11, b12, b13⟩ := tokenProduced_desc (ctl := ctl) { dw with textPending := false }
       (.text [] ds.lastTextType true ⟨ds.textPendingStart, ds.textPendingStart⟩)
-    obtain ⟨c1, c2, c3⟩ := hcl.text_ok ds.ctl [] ds.lastTextType true ⟨ds.textPendingStart, ds.textPendingStart⟩
-    obtain ⟨e1, e2, e3⟩ := hcl.text_ok dw.ctl [] ds.lastTextType true ⟨ds.textPendingStart, ds.textPendingStart⟩
+    obtain ⟨c1, c2, c3⟩ := hcl.text_ok ds.ctl [] ds.lastTextType true ⟨ds.textPendingStart, ds.textPendingStart⟩ (hcl.dom _ _ h.ctl).1
+    obtain ⟨e1, e2, e3⟩ := hcl.text_ok dw.ctl [] ds.lastTextType true ⟨ds.textPendingStart, ds.textPendingStart⟩ (hcl.dom _ _ h.ctl).2
     simp only at a1 a11 a12 a13 b1 b11 b12 b13
     rw [c1] at a13; rw [e1] at b13
     rw [c2] at a11; rw [e2] at b11
@@ -696,16 +700,15 @@ theorem handleTag_sim {E : γ → γ → Prop} {inpS inpW : Bytes} {δ : Nat} (F
 /-! ### non-tag lexemes -/
 
 /-- everything a text chunk does to the dispatcher -/
-theorem textTok_desc (hcl : ∃ E, TextBlind ctl E) (d : Disp γ) (b : Bytes) (tt : TextType) (l : Bool) (s : Range) :
+theorem textTok_desc {E : γ → γ → Prop} (hcl : TextBlind ctl E) (d : Disp γ) (hd : E d.ctl d.ctl) (b : Bytes) (tt : TextType) (l : Bool) (s : Range) :
     (Disp.tokenProduced ctl d (.text b tt l s)).2 = .ok () ∧
     (Disp.tokenProduced ctl d (.text b tt l s)).1.ctl = (ctl.token d.ctl (.text b tt l s)).1 ∧
     DSame { d with ctl := (ctl.token d.ctl (.text b tt l s)).1 } (Disp.tokenProduced ctl d (.text b tt l s)).1 ∧
     (Disp.tokenProduced ctl d (.text b tt l s)).1.rcs = d.rcs ∧
     sinkBytes (Disp.tokenProduced ctl d (.text b tt l s)).1.sink = sinkBytes d.sink ++
       (if d.emissionEnabled = true then b else []) := by
-  obtain ⟨E, hcl⟩ := hcl
   obtain ⟨a1, a2, a3, a4, a5, a6, a7, a8, a9, a10, a11, a12, a13⟩ := tokenProduced_desc (ctl := ctl) d (.text b tt l s)
-  obtain ⟨c1, c2, c3⟩ := hcl.text_ok d.ctl b tt l s
+  obtain ⟨c1, c2, c3⟩ := hcl.text_ok d.ctl b tt l s hd
   rw [c1] at a13; rw [c2] at a11; rw [c3] at a12
   exact ⟨a13, a1, ⟨a1, a3, a4, a5, a6, a7, a8, a9, a10, a11⟩, a2, a12⟩
 
@@ -739,7 +742,7 @@ theorem emitChunkBefore_desc (d : Disp γ) (input : Bytes) (raw : Range) :
           simp [this]
 
 /-- everything `produce_text` (one text lexeme under the TEXT flag) does -/
-theorem produceText_desc (hcl : ∃ E, TextBlind ctl E) (d : Disp γ) (input : Bytes) (lx : NonTagLexeme) (tt : TextType) :
+theorem produceText_desc {E : γ → γ → Prop} (hcl : TextBlind ctl E) (d : Disp γ) (hd : E d.ctl d.ctl) (input : Bytes) (lx : NonTagLexeme) (tt : TextType) :
     EPanic (d.produceText ctl input lx tt).2 ∨
     ∃ rawb, checkedSlice input lx.raw = some rawb ∧ d.rcs ≤ lx.raw.start ∧
       (d.produceText ctl input lx tt).2 = .ok () ∧
@@ -766,7 +769,7 @@ theorem produceText_desc (hcl : ∃ E, TextBlind ctl E) (d : Disp γ) (input : B
     · right
       rw [he]
       simp only [DRes.ofExcept, DRes.bind]
-      obtain ⟨t1, t2, t3, t4, t5⟩ := textTok_desc hcl { d1 with lastTextType := tt } rawb tt false (srcOf lx.prevConsumed lx.raw)
+      obtain ⟨t1, t2, t3, t4, t5⟩ := textTok_desc hcl { d1 with lastTextType := tt } (by show E d1.ctl d1.ctl; rw [hs.ctl]; exact hd) rawb tt false (srcOf lx.prevConsumed lx.raw)
       rw [t1]
       simp only
       refine ⟨rawb, rfl, h2, trivial, by rw [t2]; simp only; rw [hs.ctl], by rw [t3.flags]; exact hs.flags,
@@ -778,7 +781,7 @@ theorem produceText_desc (hcl : ∃ E, TextBlind ctl E) (d : Disp γ) (input : B
       cases d.emissionEnabled <;> simp
 
 /-- `produce_text` cannot fail when its slices are in range -/
-theorem produceText_noPanic (hcl : ∃ E, TextBlind ctl E) (d : Disp γ) (input : Bytes) (lx : NonTagLexeme) (tt : TextType)
+theorem produceText_noPanic {E : γ → γ → Prop} (hcl : TextBlind ctl E) (d : Disp γ) (hd : E d.ctl d.ctl) (input : Bytes) (lx : NonTagLexeme) (tt : TextType)
     (h1 : lx.raw.start ≤ lx.raw.end) (h2 : lx.raw.end ≤ input.length) (h3 : d.rcs ≤ lx.raw.start) :
     ¬ EPanic (d.produceText ctl input lx tt).2 := by
   intro hp
@@ -795,7 +798,7 @@ theorem produceText_noPanic (hcl : ∃ E, TextBlind ctl E) (d : Disp γ) (input 
     cases he
   · rw [he] at hp
     simp only [DRes.ofExcept, DRes.bind] at hp
-    obtain ⟨t1, _⟩ := textTok_desc hcl { d1 with lastTextType := tt }
+    obtain ⟨t1, _⟩ := textTok_desc hcl { d1 with lastTextType := tt } (by show E d1.ctl d1.ctl; rw [hs.ctl]; exact hd)
       (LolHtml.slice input lx.raw.start lx.raw.end) tt false (srcOf lx.prevConsumed lx.raw)
     rw [t1] at hp
     exact hp
@@ -804,14 +807,14 @@ theorem produceText_noPanic (hcl : ∃ E, TextBlind ctl E) (d : Disp γ) (input 
 theorem produceText_sim {E : γ → γ → Prop} {inpS inpW : Bytes} {δ : Nat} (F : Frame inpS inpW δ) (hcl : TextBlind ctl E)
     {ds dw : Disp γ} (h : DK0 E inpS inpW δ ds dw) (pc : Nat) (raw : Range) (o o' : Option NonTagOutline) (tt : TextType) :
     OpRel (DK0 E inpS inpW δ) (ds.produceText ctl inpS ⟨pc + δ, raw, o⟩ tt) (dw.produceText ctl inpW ⟨pc, shR δ raw, o'⟩ tt) := by
-  rcases produceText_desc ⟨E, hcl⟩ ds inpS ⟨pc + δ, raw, o⟩ tt with hp | ⟨rawb, a0, a1, a2, a3, a4, a5, a6, a7, a8, a9, a10, a11, a12, a13, a14⟩
+  rcases produceText_desc hcl ds (hcl.dom _ _ h.ctl).1 inpS ⟨pc + δ, raw, o⟩ tt with hp | ⟨rawb, a0, a1, a2, a3, a4, a5, a6, a7, a8, a9, a10, a11, a12, a13, a14⟩
   · exact Or.inl hp
   · simp only at a0 a1
     obtain ⟨r1, r2, r3⟩ := checkedSlice_some a0
     have hl := F.len
     have hle := h.bytes.rcs_le
-    rcases produceText_desc ⟨E, hcl⟩ dw inpW ⟨pc, shR δ raw, o'⟩ tt with hp | ⟨rawb', b0, b1, b2, b3, b4, b5, b6, b7, b8, b9, b10, b11, b12, b13, b14⟩
-    · exact (produceText_noPanic ⟨E, hcl⟩ dw inpW ⟨pc, shR δ raw, o'⟩ tt (by simp only [shR]; omega) (by simp only [shR]; omega)
+    rcases produceText_desc hcl dw (hcl.dom _ _ h.ctl).2 inpW ⟨pc, shR δ raw, o'⟩ tt with hp | ⟨rawb', b0, b1, b2, b3, b4, b5, b6, b7, b8, b9, b10, b11, b12, b13, b14⟩
+    · exact (produceText_noPanic hcl dw (hcl.dom _ _ h.ctl).2 inpW ⟨pc, shR δ raw, o'⟩ tt (by simp only [shR]; omega) (by simp only [shR]; omega)
         (by simp only [shR]; omega) hp).elim
     · simp only at b0 b1
       rw [F.checkedSlice a0] at b0
@@ -1053,6 +1056,8 @@ theorem textRepay_sim {E : γ → γ → Prop} {inpS inpW : Bytes} {δ : Nat} (F
       (if a + d < x then ds.produceText ctl inpS ⟨pc + δ, ⟨a + d - δ, x - δ⟩, o⟩ tt else (ds, .ok ()))
       (dw.produceText ctl inpW ⟨pc, ⟨a, x⟩, o'⟩ tt) := by
   obtain ⟨l1, l2, l3, l4⟩ := hloc
+  have hdS : E ds.ctl ds.ctl := (hcl.dom _ _ hk.ctl).1
+  have hdW : E dw.ctl dw.ctl := hcl.dom_tok _ _ (hcl.dom _ _ hk.ctl).2
   have hl := F.len
   have hrd := hk.rcs_d
   have hri := hk.rcs_in
@@ -1068,13 +1073,13 @@ theorem textRepay_sim {E : γ → γ → Prop} {inpS inpW : Bytes} {δ : Nat} (F
   rw [e2] at hbytes
   by_cases hlt : a + d < x
   · rw [if_pos hlt]
-    rcases produceText_desc ⟨E, hcl⟩ ds inpS ⟨pc + δ, ⟨a + d - δ, x - δ⟩, o⟩ tt with hp | ⟨rawb, a0, a1, a2, a3, a4, a5, a6, a7, a8, a9, a10, a11, a12, a13, a14⟩
+    rcases produceText_desc hcl ds hdS inpS ⟨pc + δ, ⟨a + d - δ, x - δ⟩, o⟩ tt with hp | ⟨rawb, a0, a1, a2, a3, a4, a5, a6, a7, a8, a9, a10, a11, a12, a13, a14⟩
     · exact Or.inl hp
     simp only at a0 a1 a3 a10 a13 a14
     obtain ⟨r1, r2, r3⟩ := checkedSlice_some a0
     simp only at r1 r2 r3
-    rcases produceText_desc ⟨E, hcl⟩ dw inpW ⟨pc, ⟨a, x⟩, o'⟩ tt with hp | ⟨rawb', b0, b1, b2, b3, b4, b5, b6, b7, b8, b9, b10, b11, b12, b13, b14⟩
-    · exact (produceText_noPanic ⟨E, hcl⟩ dw inpW ⟨pc, ⟨a, x⟩, o'⟩ tt (by simp only; omega) (by simp only; omega)
+    rcases produceText_desc hcl dw hdW inpW ⟨pc, ⟨a, x⟩, o'⟩ tt with hp | ⟨rawb', b0, b1, b2, b3, b4, b5, b6, b7, b8, b9, b10, b11, b12, b13, b14⟩
+    · exact (produceText_noPanic hcl dw hdW inpW ⟨pc, ⟨a, x⟩, o'⟩ tt (by simp only; omega) (by simp only; omega)
         (by simp only; omega) hp).elim
     simp only at b0 b1 b3 b10 b13 b14
     obtain ⟨q1, q2, q3⟩ := checkedSlice_some b0
@@ -1094,7 +1099,7 @@ theorem textRepay_sim {E : γ → γ → Prop} {inpS inpW : Bytes} {δ : Nat} (F
       ⟨by rw [a13, b13]; omega, ?_⟩, by rw [a5]; exact hk.emT⟩
     · rw [a3, b3]
       have h1 := hcl.text_cong _ _ rawb tt false (srcOf (pc + δ) ⟨a + d - δ, x - δ⟩) hctl
-      have h2 := hcl.text_split dw.ctl (LolHtml.slice inpW a (a + d)) rawb tt false (pc + a)
+      have h2 := hcl.text_split dw.ctl (LolHtml.slice inpW a (a + d)) rawb tt false (pc + a) hdW
       rw [hlen1, hlen2, ← hcat] at h2
       have es : srcOf (pc + δ) ⟨a + d - δ, x - δ⟩ = ⟨pc + a + d, pc + a + d + (x - (a + d))⟩ := by
         simp only [srcOf, Range.mk.injEq]; constructor <;> first | trivial | omega
@@ -1111,8 +1116,8 @@ theorem textRepay_sim {E : γ → γ → Prop} {inpS inpW : Bytes} {δ : Nat} (F
   · rw [if_neg hlt]
     have hxe : x = a + d := by omega
     subst hxe
-    rcases produceText_desc ⟨E, hcl⟩ dw inpW ⟨pc, ⟨a, a + d⟩, o'⟩ tt with hp | ⟨rawb', b0, b1, b2, b3, b4, b5, b6, b7, b8, b9, b10, b11, b12, b13, b14⟩
-    · exact (produceText_noPanic ⟨E, hcl⟩ dw inpW ⟨pc, ⟨a, a + d⟩, o'⟩ tt (by simp only; omega) (by simp only; omega)
+    rcases produceText_desc hcl dw hdW inpW ⟨pc, ⟨a, a + d⟩, o'⟩ tt with hp | ⟨rawb', b0, b1, b2, b3, b4, b5, b6, b7, b8, b9, b10, b11, b12, b13, b14⟩
+    · exact (produceText_noPanic hcl dw hdW inpW ⟨pc, ⟨a, a + d⟩, o'⟩ tt (by simp only; omega) (by simp only; omega)
         (by simp only; omega) hp).elim
     simp only at b0 b1 b3 b10 b13 b14
     obtain ⟨q1, q2, q3⟩ := checkedSlice_some b0
@@ -1146,6 +1151,15 @@ theorem handleNonTag_text (d : Disp γ) (input : Bytes) (pc : Nat) (raw : Range)
   unfold Disp.handleNonTag Disp.produceNonTag
   simp [NonTagLexeme.isText, DRes.bind]
 
+theorem DK.dom {E : γ → γ → Prop} (hcl : TextBlind ctl E) {inpS inpW : Bytes} {δ d : Nat} {ds dw : Disp γ}
+    (h : DK ctl E inpS inpW δ d ds dw) : E ds.ctl ds.ctl ∧ E dw.ctl dw.ctl := by
+  unfold DK at h
+  split at h
+  · exact hcl.dom _ _ h.ctl
+  · cases hf : ds.flags.text with
+    | false => exact hcl.dom _ _ (h.1 hf).ctl
+    | true => exact ⟨(hcl.dom _ _ (h.2 hf).ctl).1, hcl.dom_tok _ _ (hcl.dom _ _ (h.2 hf).ctl).2⟩
+
 /-- **The dispatcher instance of `OpsSim`**, for every controller in the class `TextBlind`. -/
 theorem dispOps_sim {E : γ → γ → Prop} {inpS inpW : Bytes} {δ : Nat} (F : Frame inpS inpW δ) (hcl : TextBlind ctl E) :
     OpsSim (dispOps ctl) inpS inpW δ (DK ctl E inpS inpW δ) DLoc where
@@ -1154,11 +1168,11 @@ theorem dispOps_sim {E : γ → γ → Prop} {inpS inpW : Bytes} {δ : Nat} (F :
   startHint := fun n ns ks kw hk => (startTagHint_sim hcl (DK_zero.1 hk) n ns).mono (fun _ _ h => DK_zero.2 h)
   endHint := fun n ks kw hk => (endTagHint_sim hcl (DK_zero.1 hk) n).mono (fun _ _ h => DK_zero.2 h)
   textOk := by
-    intro pc raw tt ks
+    intro pc raw tt d ks kw hk
     show EPanic (Disp.handleNonTag ctl inpS ⟨pc, raw, some (.text tt)⟩ ks).2 ∨ _
     rw [show (dispOps ctl).handleNonTag = Disp.handleNonTag ctl from rfl, handleNonTag_text]
     split
-    · rcases produceText_desc ⟨E, hcl⟩ ks inpS ⟨pc, raw, some (.text tt)⟩ tt with hp | ⟨_, _, _, h2, _⟩
+    · rcases produceText_desc hcl ks (hk.dom hcl).1 inpS ⟨pc, raw, some (.text tt)⟩ tt with hp | ⟨_, _, _, h2, _⟩
       · exact Or.inl hp
       · exact Or.inr h2
     · exact Or.inr rfl
